@@ -162,7 +162,9 @@ let run_case (case : string) : string =
             Buffer.add_string buf ((if !last_end then "N" else "P") ^ check () ^ " " ^
                                    String.concat " " (List.mapi (fun j _ ->
                                        let it = (try Hashtbl.find tap_items j with Not_found -> []) in
-                                       Printf.sprintf "t%d=%s" j (if it = [] then "-" else String.concat "+" it)) !taps))
+                                       Printf.sprintf "t%d=%s" j (if it = [] then "-" else String.concat "+" it)) !taps)
+                                   (* ChainPollFacts.chain_pending_registers_everywhere *)
+                                   ^ (if !last_end then "" else " ok:reg=1"))
           end
         end else if starts_with "d:" ev then begin
           let d = parse_diff (after "d:" ev) in
